@@ -164,6 +164,8 @@ def build_items(ctx, rnd):
                 ng = sum(gen.count_groups(x[1]) for x in it if x[0] == 'seg')
                 if any(x[0] == 'seg' and regions.star_before_star_group(x[1]) for x in it):
                     ng = None
+                if f & G.FORCEWIN and text[:1] in '/\\':
+                    ng = None         # Windows mode may read the leading segments as a literal UNC prefix: groups there are plain text
             items.append(('gl', text, f, None, ng))
         if k % 9 == 0:
             items.append(('gl', text.encode('latin-1'), gfs[k % 3], None, None))
